@@ -516,8 +516,10 @@ def _resize_discr(discr, newshp, offset, discr_kwargs):
                 num_r = n_diff // 2
                 num_l = n_diff - num_r
             else:
-                num_r = n_diff - off
-                num_l = off
+                # `off` cells are added (extension) or removed (restriction)
+                # on the left
+                num_l = off if n_diff > 0 else -off
+                num_r = n_diff - num_l
         else:
             num_l, num_r = 0, 0
 
